@@ -188,7 +188,7 @@ Definition cargo_pair_step (content : bytes) (st : pair_state) (c : node) : opti
   else if kind_is k_dotted_key c then
     bind (node_text content c) (fun t =>
       match split_once_dot t with
-      | Some (p, s) => Some (mkPS (Some p) (ps_ver st) true (Some s))
+      | Some (p, s) => Some (mkPS (Some (trim p)) (ps_ver st) true (Some (trim s)))      (* pkg.trim(), suffix.trim() *)
       | None => Some (mkPS (ps_name st) (ps_ver st) true (ps_suffix st))
       end)
   else if kind_is k_string c then
